@@ -357,7 +357,7 @@ def conflict(kw1, kw2):
 # ---- non-identity data deviations (C06) ---------------------------------------------------------------
 def data_deviations(M: Mol, tier="quick"):
     """Yields (label, M') where M' differs from M only in non-identity data."""
-    coords = [0.0, 1.5, -1.5, 123.4567, 0.0001]
+    coords = [0.0, 1.5, -1.5, 123.4567, 0.0001, -1234.5678, 12345.6789]
     for i in range(len(M.atoms)):
         for c in coords[1:]:
             for axis in range(3):
